@@ -55,6 +55,31 @@ pub fn check_message(m: &RefMsg, rep: &mut Report) -> Option<Vec<u8>> {
                 bad.push(("wire_form", show_bytes(&refs::enc_crlf(a, t, &d)), format!("{} (data borrowed at +{})", show_bytes(&bw), lead)));
             }
         }
+        // a message object that held a NEAR TWIN (same kind, same data / state / operation, another address, offset or
+        // count) is refilled with clone_from: it is this message now, in every field and on the wire
+        {
+            let twin = match m {
+                RefMsg::Data { offset, data } => RefMsg::Data { offset: offset.wrapping_add(16), data: data.clone() },
+                RefMsg::Count(c) => RefMsg::Count(c.wrapping_add(1)),
+                RefMsg::Hello(a) => RefMsg::Hello(a ^ 0x0100),
+                RefMsg::Query(a) => RefMsg::Query(a ^ 0x0100),
+                RefMsg::Goodbye(a) => RefMsg::Goodbye(a ^ 0x0100),
+                RefMsg::Complete(a) => RefMsg::Complete(a ^ 0x0100),
+                RefMsg::Request(a, o) => RefMsg::Request(a ^ 0x0100, *o),
+                RefMsg::Ack(a, o) => RefMsg::Ack(a ^ 0x0100, *o),
+                RefMsg::Report(a, st) => RefMsg::Report(a ^ 0x0100, *st),
+                RefMsg::Unknown { addr, ty, data } => RefMsg::Unknown { addr: addr ^ 0x0100, ty: *ty, data: data.clone() },
+            };
+            let mut scratch = refs::from_ref(&twin);
+            scratch.clone_from(&msg);
+            if scratch != msg || refs::to_ref(&scratch) != *m {
+                bad.push(("refilled_message_differs", sig.clone(), format!("{} (clone_from onto {})", refs::to_ref(&scratch).show(), twin.show())));
+            }
+            let sw = Frame::from(scratch).to_bytes();
+            if sw != wire {
+                bad.push(("refilled_message_differs", show_bytes(&wire), format!("{} on the wire (clone_from onto {})", show_bytes(&sw), twin.show())));
+            }
+        }
         for (label, w) in [("plain", &wire), ("crlf", &wire_nl)] {
             match Frame::from_bytes(w) {
                 Ok(f) => {
